@@ -69,29 +69,53 @@ theorem lt_size_of_get {h : Heap} {r : Ref} {n : Node} (hn : h[r]? = some n) : r
 
 /-! ## pure facts about dict entries and index resolution -/
 
-theorem dictGet_dictSet_same (es : List (DKey × Ref)) (k : DKey) (v : Ref) :
-    dictGet (dictSet es k v) k = some v := by
-  induction es with
-  | nil => simp [dictSet, dictGet]
-  | cons e es ih =>
-    obtain ⟨k', v'⟩ := e
-    by_cases hk : k' = k
-    · simp [dictSet, dictGet, hk]
-    · simp [dictSet, dictGet, hk, ih]
+@[simp] theorem DKey.norm_norm (k : DKey) : k.norm.norm = k.norm := by cases k <;> rfl
+@[simp] theorem PKey.toDKey_norm (k : PKey) : k.toDKey.norm = k.toDKey := by cases k <;> rfl
+@[simp] theorem PKey.stored_norm (k : PKey) : k.stored.norm = k.toDKey := by cases k <;> rfl
 
-theorem dictGet_dictSet_ne (es : List (DKey × Ref)) {k k' : DKey} (v : Ref) (hne : k' ≠ k) :
+/-- a lookup only sees the `==` class of the key -/
+theorem dictGet_norm (es : List (DKey × Ref)) (k : DKey) : dictGet es k.norm = dictGet es k := by
+  induction es with
+  | nil => rfl
+  | cons e es ih => obtain ⟨k', v'⟩ := e; simp [dictGet, ih]
+
+/-- … and so does a store, as far as WHICH entry is concerned (a fresh key is stored as the object given) -/
+theorem dictSet_congr_of_mem (es : List (DKey × Ref)) {k k' : DKey} {c : Ref} (hn : k'.norm = k.norm)
+    (hg : dictGet es k = some c) (v : Ref) : dictSet es k' v = dictSet es k v := by
+  induction es with
+  | nil => simp [dictGet] at hg
+  | cons e es ih =>
+    obtain ⟨k0, v0⟩ := e
+    by_cases hk : k0.norm = k.norm
+    · simp [dictSet, hk, hn]
+    · simp [dictGet, hk] at hg
+      simp [dictSet, hk, hn, ih hg]
+
+theorem dictGet_dictSet_same' (es : List (DKey × Ref)) {k k' : DKey} (v : Ref) (hn : k'.norm = k.norm) :
+    dictGet (dictSet es k v) k' = some v := by
+  induction es with
+  | nil => simp [dictSet, dictGet, hn]
+  | cons e es ih =>
+    obtain ⟨k0, v0⟩ := e
+    by_cases hk : k0.norm = k.norm
+    · simp [dictSet, dictGet, hk, hn]
+    · simp [dictSet, dictGet, hk, hn, ih]
+
+theorem dictGet_dictSet_same (es : List (DKey × Ref)) (k : DKey) (v : Ref) :
+    dictGet (dictSet es k v) k = some v := dictGet_dictSet_same' es v rfl
+
+theorem dictGet_dictSet_ne (es : List (DKey × Ref)) {k k' : DKey} (v : Ref) (hne : k'.norm ≠ k.norm) :
     dictGet (dictSet es k v) k' = dictGet es k' := by
   induction es with
   | nil => simp [dictSet, dictGet, Ne.symm hne]
   | cons e es ih =>
     obtain ⟨k0, v0⟩ := e
-    by_cases hk : k0 = k
-    · subst hk
-      simp [dictSet, dictGet, Ne.symm hne]
-    · by_cases hk' : k0 = k'
-      · subst hk'
-        simp [dictSet, dictGet, hk]
-      · simp [dictSet, dictGet, hk, hk', ih]
+    by_cases hk : k0.norm = k.norm
+    · have h2 : ¬ k0.norm = k'.norm := by rw [hk]; exact Ne.symm hne
+      simp only [dictSet, if_pos hk, dictGet, if_neg h2]
+    · by_cases hk' : k0.norm = k'.norm
+      · simp only [dictSet, if_neg hk, dictGet, if_pos hk']
+      · simp only [dictSet, if_neg hk, dictGet, if_neg hk', ih]
 
 /-- Setting an entry to the value it already has changes nothing. -/
 theorem dictSet_same (es : List (DKey × Ref)) {k : DKey} {v : Ref} (hg : dictGet es k = some v) :
@@ -100,10 +124,9 @@ theorem dictSet_same (es : List (DKey × Ref)) {k : DKey} {v : Ref} (hg : dictGe
   | nil => simp [dictGet] at hg
   | cons e es ih =>
     obtain ⟨k0, v0⟩ := e
-    by_cases hk : k0 = k
-    · subst hk
-      simp [dictGet] at hg
-      simp [dictSet, hg]
+    by_cases hk : k0.norm = k.norm
+    · simp [dictGet, hk] at hg
+      simp [dictSet, hk, hg]
     · simp [dictGet, hk] at hg
       simp [dictSet, hk, ih hg]
 
@@ -113,8 +136,8 @@ theorem dictSet_keys_of_mem (es : List (DKey × Ref)) {k : DKey} {v v' : Ref} (h
   | nil => simp [dictGet] at hg
   | cons e es ih =>
     obtain ⟨k0, v0⟩ := e
-    by_cases hk : k0 = k
-    · subst hk; simp [dictSet]
+    by_cases hk : k0.norm = k.norm
+    · simp [dictSet, hk]
     · simp [dictGet, hk] at hg
       simp [dictSet, hk, ih hg]
 
